@@ -34,8 +34,14 @@ def defining_of(prog, outs):
 def run(ctx):
     rng = ctx.rng('progs')
     n = 70 if ctx.tier == 'quick' else 800
-    for k in range(n + 1):
-        if k == n:
+    nrw = 12 if ctx.tier == 'quick' else 120
+    for k in range(n + 1 + nrw):
+        if k > n:
+            # write, move objects (NO-FORMAT objects with data, frames) to another origin, write again: in the second file,
+            # too, every object must precede the data records that refer to it (under its CURRENT identity)
+            prog, _fresh = apistream.rewrite_history(rng)
+            flavor = 'rewrite-with-origin-changes'
+        elif k == n:
             prog, flavor = apistream.d22_witness(), 'D22-witness'
         elif k % 3 == 2:
             prog, flavor = apistream.gen_multi_lf(rng, naming='distinct')
@@ -57,7 +63,8 @@ def run(ctx):
         # D22: a rejected add_origin that was the first call for its ORIGIN set leaves the empty set registered, and its
         # position decides which origin the library treats as the defining one
         d22 = 'D22-empty-set-position' if (judge.rejected_first_for_set(prog, r['outs'], only='origin') and r['agree']) else None
-        judge.check_order(ctx, d, det, headers_of(prog, r['outs']), defining_of(prog, r['outs']), defining_finding=d22)
+        if flavor != 'rewrite-with-origin-changes':
+            judge.check_order(ctx, d, det, headers_of(prog, r['outs']), defining_of(prog, r['outs']), defining_finding=d22)
         judge.check_identity_refs(ctx, d, det, check_origins=False, check_unique=False)
         if k % 13 == 0:
             ctx.sample({'stream': 'K-order', 'flavor': flavor,
